@@ -407,10 +407,18 @@ def _convert_to_test_module(enabled_examples):
     # from xdoctest import static_analysis as static
 
     module_lines = []
+    used_names = set()
     for example in enabled_examples:
 
         # Create a unit-testable function for this example
         func_name = 'test_' + example.modname.replace('.', '_') + '_' + example.callname.replace('.', '_')
+        # Every doctest gets a function of its own: a second doctest of the
+        # same callable (or Cls.meth next to Cls_meth) must not redefine it
+        base_name, count = func_name, 1
+        while func_name in used_names:
+            count += 1
+            func_name = '{}_{}'.format(base_name, count)
+        used_names.add(func_name)
         body_lines = []
 
         docstr_lines = [
